@@ -551,12 +551,12 @@ StepCall(h, e) ==
   LET o == BaseOp(h, e) IN
   IF e.e = "publish" THEN
      LET q == EffQos(h, e.qos) IN
-     IF q = 0 \/ h.dead THEN [h EXCEPT !.op = [o EXCEPT !.q = q]]
+     IF q = 0 THEN [h EXCEPT !.op = [o EXCEPT !.q = q]]
      ELSE [h EXCEPT !.reqs = Append(@, NewReq(h, ReqKindOfQos(q), e)),
                     !.op = [o EXCEPT !.q = q, !.req = Len(h.reqs) + 1]]
-  ELSE IF e.e = "subscribe" /\ ~h.dead THEN
+  ELSE IF e.e = "subscribe" THEN
      [h EXCEPT !.reqs = Append(@, NewReq(h, "SUB", e)), !.op = [o EXCEPT !.req = Len(h.reqs) + 1]]
-  ELSE IF e.e = "unsubscribe" /\ ~h.dead THEN
+  ELSE IF e.e = "unsubscribe" THEN
      [h EXCEPT !.reqs = Append(@, NewReq(h, "UNS", e)), !.op = [o EXCEPT !.req = Len(h.reqs) + 1]]
   ELSE [h EXCEPT !.op = o]
 
@@ -579,7 +579,11 @@ RetDead(h0, e) ==
   \* a call on a handle that had already died: disconnected error (disconnect: Ok), no I/O
   LET okres == IF h.op.name = "disconnect" THEN e.r.k = "ok" ELSE e.r.k = "err" /\ e.r.v = "Disconnected"
       h1 == Check(h, okres, "C11", "call on a dead handle did not fail fast with the disconnected error")
-  IN Check(h1, e.obs.io = h.op.io0, "C11", "call on a dead handle touched the transport")
+      h2 == Check(h1, e.obs.io = h.op.io0, "C11", "call on a dead handle touched the transport")
+      \* C19: a request on a dead handle is refused and leaves no trace
+      k == IF "req" \in DOMAIN h.op THEN h.op.req ELSE 0
+  IN IF k = 0 THEN h2
+     ELSE [Tick(h2, "C19") EXCEPT !.reqs[k].st = "ref", !.reqs[k].refp = "C19"]
 
 RetRequest(h0, e) ==
   \* publish (QoS > 0) / subscribe / unsubscribe
@@ -779,6 +783,39 @@ StepDrainEnd(h, e) ==
             ELSE h3
   IN h4
 
+\* C13 / C15: the run that just ended (h.sum) and the run before it (h.prev) are a twin pair: the
+\* same program against the same deterministic broker, once undisturbed and once with
+\* cancellations at pending points (continued by poll / drive) or with arbitrary fragmentation of
+\* reads and writes.  Requests cancelled before they were enqueued are absent from the base run.
+StepTwin(h, e) ==
+  LET p == IF e.kind = "cancel" THEN "C13" ELSE "C15"
+      a == h.prev  b2 == h.sum
+      \* packets of one class, in order (class by packet type: requests, PUBREL, acknowledgements, other)
+      Class(pk) == LET t == pk[2][1] \div 16 IN
+                   IF t \in {PUBLISH, SUBSCRIBE, UNSUBSCRIBE} THEN 1 ELSE IF t = PUBREL THEN 2
+                   ELSE IF t \in {PUBACK, PUBREC, PUBCOMP} THEN 3 ELSE 4
+      OfClass(sq, k) == SelectSeq(sq, LAMBDA pk : Class(pk) = k)
+      \* When a request was cancelled before it was enqueued the base run lacks that call altogether,
+      \* so the flush the cancelled call performed may have sent an owed packet a little earlier:
+      \* then each class of packets is compared as a sequence of its own instead of the interleaving.
+      \* "stall" twins: the variant run has a 2 s keep-alive and up to two stalls, so it may contain
+      \* PINGREQs (left out) and a poll that was used up by a PINGREQ reads its inbound packet one
+      \* poll later, which may move an acknowledgement relative to the requests: per-class
+      \* comparison as well
+      NoPing(sq) == SelectSeq(sq, LAMBDA pk : pk[2][1] \div 16 # PINGREQ)
+      same == IF e.kind = "stall"
+              THEN \A k \in 1..4 : OfClass(NoPing(a.out), k) = OfClass(NoPing(b2.out), k)
+              ELSE IF e.dropped = 0 THEN a.out = b2.out
+              ELSE \A k \in 1..4 : OfClass(a.out, k) = OfClass(b2.out, k)
+      h1 == Check(Tick(h, p), same, p,
+                  "outbound packet sequence differs between the twin runs")
+      h2 == Check(h1, a.msgs = b2.msgs, p, "delivered inbound messages differ between the twin runs")
+      h3 == IF e.kind = "fragment"
+            THEN Check(h2, a.res = b2.res, p, "operation results differ between the twin runs")
+            ELSE h2
+  IN IF PrintT("@STAT " \o ToJson([run |-> h.cfg.name, n |-> [q \in AllProps |-> IF q = p THEN 1 ELSE 0]]))
+     THEN h3 ELSE h3
+
 Step(h0, e) ==
   LET h == [h0 EXCEPT !.v = << >>, !.kf = << >>] IN
   \* after known finding D2 has garbled a transport's byte stream nothing observed later in this
@@ -811,6 +848,7 @@ Step(h0, e) ==
     [] e.e = "panic" -> Viol(h, "PANIC", "the client panicked")
     [] e.e = "watchdog" -> Viol(h, "C16", "run-away: I/O watchdog tripped (unbounded loop or re-sending)")
     [] e.e = "drainend" -> StepDrainEnd(h, e)
+    [] e.e = "twin" -> StepTwin(h, e)
     [] e.e = "end" -> IF PrintT("@STAT " \o ToJson([run |-> h.cfg.name, n |-> h.n])) THEN h ELSE h
     [] OTHER -> h
 
@@ -835,6 +873,7 @@ Inv_C01 == Holds("C01")    Inv_C02 == Holds("C02")    Inv_C03 == Holds("C03")
 Inv_C04 == Holds("C04")    Inv_C05 == Holds("C05")    Inv_C06 == Holds("C06")
 Inv_C07 == Holds("C07")    Inv_C08 == Holds("C08")    Inv_C09 == Holds("C09")
 Inv_C10 == Holds("C10")    Inv_C11 == Holds("C11")    Inv_C12 == Holds("C12")
+Inv_C13 == Holds("C13")    Inv_C15 == Holds("C15")
 Inv_C14 == Holds("C14")    Inv_C16 == Holds("C16")    Inv_C17 == Holds("C17")
 Inv_C18 == Holds("C18")    Inv_C19 == Holds("C19")
 
